@@ -477,15 +477,8 @@ impl<R: Round> Context<R> {
     // Convert the [Repr] from base B to base NewB, with the precision under the target base from this context.
     #[allow(non_upper_case_globals)]
     fn convert_base<const B: Word, const NewB: Word>(&self, repr: Repr<B>) -> Rounded<Repr<NewB>> {
-        // shortcut if NewB is the same as B
-        if NewB == B {
-            return self.repr_round(Repr {
-                significand: repr.significand,
-                exponent: repr.exponent,
-            });
-        }
-
         // shortcut for infinities, no rounding happens but the result is inexact
+        // (this comes first: rounding in the same base does not accept infinities)
         if repr.is_infinite() {
             return Inexact(
                 Repr {
@@ -494,6 +487,14 @@ impl<R: Round> Context<R> {
                 },
                 Rounding::NoOp,
             );
+        }
+
+        // shortcut if NewB is the same as B
+        if NewB == B {
+            return self.repr_round(Repr {
+                significand: repr.significand,
+                exponent: repr.exponent,
+            });
         }
 
         if NewB > B {
